@@ -65,6 +65,23 @@ class ScriptedConsumer(RecordingConsumer):
         self.stopped = False
         self.paused = False
 
+    def registerProducer(self, p, streaming):
+        RecordingConsumer.registerProducer(self, p, streaming)
+        if streaming and self.sched.explore:
+            # the consumer may also stop BETWEEN writes (or before the first one): a scheduler action
+            def stop_now():
+                if self.producer is not None and not self.stopped:
+                    self.stopped = True
+                    self.producer.stopProducing()
+            self._stop_action = ("stop:" + self.name, stop_now)
+            self.sched.extras.append(self._stop_action)
+
+    def unregisterProducer(self):
+        RecordingConsumer.unregisterProducer(self)
+        act = getattr(self, "_stop_action", None)
+        if act in self.sched.extras:
+            self.sched.extras.remove(act)
+
     def write(self, data):
         self.chunks.append(bytes(data))
         if self.stopped or self.producer is None or not self.sched.explore:
